@@ -216,6 +216,19 @@ Definition kind_is_newline (n : node) : bool := match n with Node (KNewLine _) _
 
 Definition quote_literal (s : bytes) : bytes := go_quote_body s.
 
+(** the chunks of a string literal that carry static template content (what each stands for is proved in
+    Proofs/QuoteProofs.v and Properties/C04.v) *)
+Definition chunk_text_plain (t : bytes) : bytes := quote_literal t.
+Definition chunk_text_escaped (t : bytes) : bytes := quote_literal (html_escape t).
+Definition chunk_class (names : bytes) : bytes := lit " class=\""" ++ quote_literal (html_escape names) ++ lit "\""".
+Definition chunk_attr_value (v : bytes) : bytes := quote_literal (html_escape v) ++ lit "\""".
+Definition chunk_attr_name (name : bytes) : bytes := lit " " ++ name.
+Definition chunk_attr_open (name : bytes) : bytes := lit " " ++ name ++ lit "=\""".
+Definition chunk_id (i : bytes) : bytes := lit " id=\""" ++ quote_literal (html_escape i) ++ lit "\""".
+Definition chunk_tag_open (tag : bytes) : bytes := lit "<" ++ quote_literal tag.
+Definition chunk_tag_close (tag : bytes) : bytes := lit "</" ++ quote_literal tag ++ lit ">".
+Definition chunk_comment (text : bytes) : bytes := lit "<!--" ++ quote_literal (html_escape text) ++ lit "-->\n".
+
 Definition render_body_pre : list bytes :=
   [lit "__buf, __isBuf := __w.(goht.Buffer)" ++ [10];
    lit "if !__isBuf {" ++ [10];
@@ -252,9 +265,9 @@ Definition emit_text (origin : token) (st : est) : est :=
     let is_plain := toktype_eqb typ TPlainText in
     let is_preserve := toktype_eqb typ TPreserveText in
     if negb (is_plain || is_preserve || wl_unesc (snd st)) then
-      tw_write_string_literal (quote_literal (html_escape (t_lit origin))) st
+      tw_write_string_literal (chunk_text_escaped (t_lit origin)) st
     else
-      let s := quote_literal (t_lit origin) in
+      let s := chunk_text_plain (t_lit origin) in
       let s' := if is_preserve then
                   let t := trim_suffix (lit "\n") s in
                   t ++ brepeat (lit "&#x000A;") ((List.length s - List.length t) / 2)
@@ -308,7 +321,7 @@ Definition render_class (classes : list token) (st : est) : est :=
       | Some l => fail_with (lit "failed to unquote class: " ++ l ++ lit " error: invalid syntax") st
       | None =>
         tw_write_string_literal
-          (lit " class=\""" ++ quote_literal (html_escape (join (lit " ") (class_names classes))) ++ lit "\""") st
+          (chunk_class (join (lit " ") (class_names classes))) st
       end
     else
       let '(v, st1) := get_var_name st in
@@ -326,7 +339,7 @@ Fixpoint render_attrs (l : list (bytes * attribute)) (st : est) : est :=
   | (_, a) :: rest =>
     let st' :=
         match a_value a with
-        | [] => tw_write_string_literal (lit " " ++ a_name a) st
+        | [] => tw_write_string_literal (chunk_attr_name (a_name a)) st
         | _ =>
           if a_bool a then
             let st1 := tw_wri (lit "if ") st in
@@ -334,17 +347,17 @@ Fixpoint render_attrs (l : list (bytes * attribute)) (st : est) : est :=
             let st3 := tw_add sm (a_origin a) r st2 in
             let st4 := tw_wr (lit " {" ++ [10]) st3 in
             let outer := snd st4 in
-            let st5 := tw_write_string_literal (lit " " ++ a_name a) (set_local st4 (indent_local outer 1)) in
+            let st5 := tw_write_string_literal (chunk_attr_name (a_name a)) (set_local st4 (indent_local outer 1)) in
             let st6 := tw_close st5 in
             tw_wri (lit "}" ++ [10]) (set_local st6 outer)
           else
-            let st1 := tw_write_string_literal (lit " " ++ a_name a ++ lit "=\""") st in
+            let st1 := tw_write_string_literal (chunk_attr_open (a_name a)) st in
             if a_dyn a then
               let st2 := tw_wri (write_string_open ++ lit "goht.EscapeString(") st1 in
               let st3 := write_formatted_text sm (a_origin a) st2 in
               tw_wr (lit ")+""\""""); __err != nil { return }" ++ [10]) st3
             else
-              tw_write_string_literal (quote_literal (html_escape (a_value a)) ++ lit "\""") st1
+              tw_write_string_literal (chunk_attr_value (a_value a)) st1
         end in
     render_attrs rest st'
   end.
@@ -364,7 +377,7 @@ Definition render_attributes (d : elem) (st : est) : est :=
       end in
   let st2 := match e_id d with
              | [] => st1
-             | i => tw_write_string_literal (lit " id=\""" ++ quote_literal (html_escape i) ++ lit "\""") st1
+             | i => tw_write_string_literal (chunk_id i) st1
              end in
   let classes1 := match e_objref d with Some o => e_classes d ++ [o] | None => e_classes d end in
   let '(classes2, attrs) :=
@@ -432,7 +445,7 @@ Fixpoint emit_node (n : node) (next : option node) (needs_close : bool) (st : es
     | KDoctype _ => (tw_write_string_literal (lit "<!DOCTYPE html>") st, false)
     | KElement _ _ d =>
       let st1 := if e_nuke_outer d then tw_write_string_literal c_NukeBefore st else st in
-      let st2 := tw_write_string_literal (lit "<" ++ quote_literal (e_tag d)) st1 in
+      let st2 := tw_write_string_literal (chunk_tag_open (e_tag d)) st1 in
       let st3 := render_attributes d st2 in
       let st4 := tw_write_string_literal (lit ">") st3 in
       if e_selfclosing d then (st4, false)
@@ -441,7 +454,7 @@ Fixpoint emit_node (n : node) (next : option node) (needs_close : bool) (st : es
         let only_newline := match children with [c] => kind_is_newline c | _ => false end in
         let st6 := if only_newline then st5 else emit_children children false st5 in
         let st7 := if e_nuke_inner d then tw_write_string_literal c_NukeBefore st6 else st6 in
-        let st8 := tw_write_string_literal (lit "</" ++ quote_literal (e_tag d) ++ lit ">") st7 in
+        let st8 := tw_write_string_literal (chunk_tag_close (e_tag d)) st7 in
         (if e_nuke_outer d then tw_write_string_literal c_NukeAfter st8
          else tw_write_string_literal (lit "\n") st8, false)
     | KNewLine _ => (tw_write_string_literal (lit "\n") st, false)
@@ -451,7 +464,7 @@ Fixpoint emit_node (n : node) (next : option node) (needs_close : bool) (st : es
         let st1 := tw_write_string_literal (lit "<!--") st in
         let st2 := emit_children children false st1 in
         (tw_write_string_literal (lit "-->\n") st2, false)
-      | text => (tw_write_string_literal (lit "<!--" ++ quote_literal (html_escape text) ++ lit "-->\n") st, false)
+      | text => (tw_write_string_literal (chunk_comment text) st, false)
       end
     | KText origin => (emit_text origin st, false)
     | KUnescape _ _ =>
